@@ -1,12 +1,13 @@
 (* C06 — case type, correspondence predicate and property predicate.
    Depends on Model/ and Base/ only. *)
 From Coq Require Import Floats.
-From Murex Require Export Base.Outcome Base.Bytes Base.CheckLib Model.Expr Model.ExprSpec.
+From Murex Require Export Base.Outcome Base.Bytes Base.CheckLib Model.Expr Model.ExprSpec Model.ExprLex.
 
 (* what the harness saw: kind 0 = a value, 1 = clean error, 2 = panic, 3 = hang,
    4 = a value of a type outside the model *)
 Record obs := { o_kind : N; o_val : value }.
-Record case := { c_toks : list ptok; c_orc : oracles; c_obs : obs }.
+(* c_src: the source text handed to the real parser; c_toks: the token list it was printed from *)
+Record case := { c_toks : list ptok; c_src : bytes; c_orc : oracles; c_obs : obs }.
 
 (* floats are compared by bit pattern (Model.Expr.same_float: class + eqb, NaN as one
    class): the harness prints the float64 exactly, +0 and -0 differ, NaN = NaN *)
@@ -31,9 +32,15 @@ Definition obs_of (r : Outcome value) : obs :=
   | OutOfFuel => {| o_kind := 3; o_val := VNull |}
   end.
 
-(* correspondence: the fold-pass machine with the tables regenerated from the
-   Go source predicts value (exactly) or error kind *)
-Definition agree (c : case) : bool := obs_eqb (obs_of (eval_expr (c_orc c) (c_toks c))) (c_obs c).
+(* correspondence: the fold-pass machine with the tables regenerated from the Go
+   source predicts value (exactly) or error kind — both from the token list and
+   from the source text through the model of the reader (the `-` rule etc.) *)
+Definition agree (c : case) : bool :=
+  obs_eqb (obs_of (eval_expr (c_orc c) (c_toks c))) (c_obs c) &&
+  match eval_src (c_orc c) (c_src c) with
+  | Some r => obs_eqb (obs_of r) (c_obs c)
+  | None => false
+  end.
 
 (* ---- the property, written from its text ----
    numbers: IEEE-754 binary64 + - * / ; comparisons yield booleans; equal numbers
